@@ -250,6 +250,9 @@ pub enum ReadMode {
     Lazy,
     /// never touch the payload
     Abandon,
+    /// the handler hands the payload to a task of its own (`take_payload`) that reads it to the end; the
+    /// handler itself carries on (cancelling the handler does not release that reader)
+    Detached,
 }
 
 #[derive(Clone, Copy, Debug, PartialEq, Eq)]
@@ -648,7 +651,7 @@ async fn read_payload_v5(p: &v5::Publish, mode: ReadMode, k: usize, log: &Log, g
                 }
             }
         },
-        ReadMode::Abandon => {}
+        ReadMode::Abandon | ReadMode::Detached => {}
     }
 }
 
@@ -671,7 +674,7 @@ async fn read_payload_v3(p: &v3::Publish, mode: ReadMode, k: usize, log: &Log, g
                 }
             }
         },
-        ReadMode::Abandon => {}
+        ReadMode::Abandon | ReadMode::Detached => {}
     }
 }
 
@@ -710,7 +713,7 @@ impl Handles {
 }
 
 async fn v5_publish_handler(
-    p: v5::Publish,
+    mut p: v5::Publish,
     cfg: EpCfg,
     log: Log,
     gates: Rc<Gates>,
@@ -729,7 +732,18 @@ async fn v5_publish_handler(
         size: p.payload_size(),
         props: props_str_v5(&p.packet().properties),
     });
-    read_payload_v5(&p, cfg.read_mode, k, &log, &rgates).await;
+    if cfg.read_mode == ReadMode::Detached {
+        let pl = p.take_payload();
+        let log2 = log.clone();
+        ntex_rt::spawn(async move {
+            match pl.read_all().await {
+                Ok(b) => log2.push(Rec::HPayload { k, bytes: b.to_vec(), err: None }),
+                Err(e) => log2.push(Rec::HPayload { k, bytes: vec![], err: Some(format!("{e:?}")) }),
+            }
+        });
+    } else {
+        read_payload_v5(&p, cfg.read_mode, k, &log, &rgates).await;
+    }
     let o = gates.wait(k).await;
     guard.finish();
     log.push(Rec::HExit { k, outcome: o });
@@ -741,7 +755,7 @@ async fn v5_publish_handler(
 }
 
 async fn v3_publish_handler(
-    p: v3::Publish,
+    mut p: v3::Publish,
     cfg: EpCfg,
     log: Log,
     gates: Rc<Gates>,
@@ -759,7 +773,18 @@ async fn v3_publish_handler(
         size: p.payload_size(),
         props: String::new(),
     });
-    read_payload_v3(&p, cfg.read_mode, k, &log, &rgates).await;
+    if cfg.read_mode == ReadMode::Detached {
+        let pl = p.take_payload();
+        let log2 = log.clone();
+        ntex_rt::spawn(async move {
+            match pl.read_all().await {
+                Ok(b) => log2.push(Rec::HPayload { k, bytes: b.to_vec(), err: None }),
+                Err(e) => log2.push(Rec::HPayload { k, bytes: vec![], err: Some(format!("{e:?}")) }),
+            }
+        });
+    } else {
+        read_payload_v3(&p, cfg.read_mode, k, &log, &rgates).await;
+    }
     let o = gates.wait(k).await;
     guard.finish();
     log.push(Rec::HExit { k, outcome: o });
@@ -1296,7 +1321,7 @@ pub async fn start_v5_client(cfg: &EpCfg) -> Conn {
                                     }
                                 }
                             },
-                            ReadMode::Abandon => {}
+                            ReadMode::Abandon | ReadMode::Detached => {}
                         }
                         let o = g.wait(k).await;
                         guard.finish();
@@ -1419,7 +1444,7 @@ pub async fn start_v3_client(cfg: &EpCfg) -> Conn {
                                     }
                                 }
                             },
-                            ReadMode::Abandon => {}
+                            ReadMode::Abandon | ReadMode::Detached => {}
                         }
                         let o = g.wait(k).await;
                         guard.finish();
